@@ -57,6 +57,10 @@ func init() {
 		register(&core.Scenario{Name: "c04-overtaken-writer-" + kind, Property: "C04", Weight: 1, Run: func(env *core.Env) { c04overtaken(env, kind) }})
 	}
 	register(&core.Scenario{Name: "c04-concurrent-patches", Property: "C04", Weight: 2, Bubble: true, LeakIsViolation: true, Run: c04concurrentPatches})
+	for _, kind := range []string{"mem+http1", "mem+http2"} {
+		kind := kind
+		register(&core.Scenario{Name: "c04-premature-writer-" + strings.TrimPrefix(kind, "mem+"), Property: "C04", Weight: 1, Run: func(env *core.Env) { c04premature(env, kind) }})
+	}
 	register(&core.Scenario{Name: "c04-unify-member-loses-write", Property: "C04", Weight: 2, Bubble: true, LeakIsViolation: true, Run: func(env *core.Env) { c04(env, "unify-memberfault", false) }})
 }
 
@@ -805,6 +809,11 @@ func c04concurrentPatches(env *core.Env) {
 		}
 		data := bytes.Repeat([]byte{byte('A' + t)}, L)
 		plans[t] = &sent{off: off, data: data}
+		// a chunk meant for the end of what is there may be the last one: sent with the
+		// closing PUT, which names the digest of everything up to and including it
+		if off == int64(len(base)) && c.Bool("via-closing-put", 1, 3) {
+			plans[t].viaPUT = true
+		}
 	}
 	trickle := c.Bool("trickling-bodies", 1, 2)
 	trs := make([]*simnet.Transport, ntasks)
@@ -831,6 +840,10 @@ func c04concurrentPatches(env *core.Env) {
 				p.err = err
 				return
 			}
+			if p.viaPUT {
+				_, p.err = w.Commit(reg.Sha256(append(append([]byte{}, base...), p.data...)))
+				return
+			}
 			p.err = w.Close()
 		})
 	}
@@ -842,6 +855,8 @@ func c04concurrentPatches(env *core.Env) {
 			env.Sample("client %d: chunk at offset %d (upload held %d) -> %v", t, p.off, len(base), p.err)
 			if p.err == nil {
 				accepted = append(accepted, p)
+			} else if p.viaPUT && errors.Is(p.err, ociregistry.ErrDigestInvalid) {
+				// judged below, once it is known where this request's bytes went
 			} else if !errors.Is(p.err, ociregistry.ErrRangeInvalid) {
 				env.Failf("C04/concurrent/wrong-error", "a chunk sent at offset %d was refused with %s, want RANGE_INVALID: %v", p.off, reg.CodeOf(p.err), p.err)
 			}
@@ -873,6 +888,20 @@ func c04concurrentPatches(env *core.Env) {
 			}
 			if p.err != nil && n == len(p.data) {
 				env.Probe("c04:refused-after-all-bytes-taken")
+			}
+			if p.viaPUT {
+				// One request: its data goes in at its offset and the content up to there is
+				// committed, or it is refused. Whichever requests came before or after it.
+				content := append(append([]byte{}, base...), p.data...)
+				_, rerr := mem.ResolveBlob(ctx, repo, reg.Sha256(content))
+				switch {
+				case p.err == nil && rerr != nil:
+					env.Failf("C04/concurrent/closing-put-ok-but-no-blob", "client %d's closing PUT succeeded but the blob it names is not there: %v", t, rerr)
+				case errors.Is(p.err, ociregistry.ErrDigestInvalid) && n == len(p.data) && int64(first) == p.off:
+					env.Failf("C04/concurrent/closing-put-not-atomic", "client %d's closing PUT (%d bytes for offset %d, digest of the %d bytes up to their end) had all its bytes taken at that offset and was then refused as DIGEST_INVALID: another request's chunk got in between its data and its commit (upload after the first %d bytes: %q). No order of the requests explains the answers: the chunk behind it was accepted, so it came later, and then the commit should have found what the digest names", t, len(p.data), p.off, len(content), len(base), want[len(base):])
+				case errors.Is(p.err, ociregistry.ErrDigestInvalid):
+					env.Failf("C04/concurrent/wrong-error", "client %d's closing PUT for offset %d was refused with DIGEST_INVALID although its data did not go in at that offset: %v", t, p.off, p.err)
+				}
 			}
 		}
 		_ = accepted
@@ -914,4 +943,107 @@ func (w *shadowWriter) Write(p []byte) (int, error) {
 	n, err := w.BlobWriter.Write(p)
 	*w.shadow = append(*w.shadow, p[:n]...)
 	return n, err
+}
+
+// c04premature: a writer resumed at an offset the registry has not reached yet. Its data
+// is refused (416) when it is sent - with the closing PUT, or with a PATCH - and must
+// not get into the upload later either: not when the registry has meanwhile reached that
+// offset through another writer and the refused writer is then closed or used again.
+func c04premature(env *core.Env, kind string) {
+	c := env.C
+	ctx := context.Background()
+	st := buildStack(env, &stackOpts{Kind: kind})
+	r := st.Reg
+	repo := repoNames[c.Int("repo", len(repoNames))]
+	base := c.Bytes("base", []int{0, 2, 5, 300}[c.Int("baselen", 4)])
+	x := c.Bytes("x", c.Range("xlen", 1, 40))
+	y := c.Bytes("y", c.Range("ylen", 1, 40))
+	w0, err := r.PushBlobChunked(ctx, repo, 0)
+	if err != nil {
+		env.Failf("C04/start/unexpected-failure", "PushBlobChunked failed: %v", err)
+	}
+	if len(base) > 0 {
+		if _, err := w0.Write(base); err != nil {
+			env.Failf("C04/Write/unexpected-failure", "Write failed although no fault was injected: %v", err)
+		}
+	}
+	if err := w0.Close(); err != nil {
+		env.Failf("C04/Close/unexpected-failure", "Close failed although no fault was injected: %v", err)
+	}
+	id := w0.ID()
+	n := int64(len(base))
+	held := func() int64 {
+		ids := st.Uploads.between(0, -1, repo)
+		if len(ids) != 1 {
+			core.Harnessf("the backend started %d uploads, want 1", len(ids))
+		}
+		return backendUploadSize(ctx, st.Mem, repo, ids[0])
+	}
+	// the premature writer: it believes the registry holds base+x already
+	ahead := n + int64(len(x))
+	p, err := r.PushBlobChunkedResume(ctx, repo, id, ahead, 0)
+	if err != nil {
+		env.Failf("C04/resume/unexpected-failure", "PushBlobChunkedResume(offset %d) failed: %v", ahead, err)
+	}
+	_, werr := p.Write(y)
+	perr := werr
+	how := "Write"
+	if perr == nil {
+		if c.Bool("send-with-commit", 1, 2) {
+			how = "Commit"
+			_, perr = p.Commit(reg.Sha256(append(append(append([]byte{}, base...), x...), y...)))
+		} else {
+			how = "Close"
+			perr = p.Close()
+		}
+	}
+	env.Op("premature:" + how)
+	if perr == nil {
+		env.Failf("C04/stale/accepted", "%d bytes sent for offset %d were accepted (%s) although the registry holds %d bytes", len(y), ahead, how, n)
+	}
+	if !errors.Is(perr, ociregistry.ErrRangeInvalid) {
+		env.Failf("C04/stale/wrong-error", "data for offset %d (registry holds %d) was refused with %s, want RANGE_INVALID: %v", ahead, n, reg.CodeOf(perr), perr)
+	}
+	if got := held(); got != n {
+		env.Failf("C04/stale/altered", "a refused write for offset %d changed the upload from %d to %d bytes", ahead, n, got)
+	}
+	// another writer takes the upload to exactly that offset
+	q, err := r.PushBlobChunkedResume(ctx, repo, id, n, 0)
+	if err != nil {
+		env.Failf("C04/resume/unexpected-failure", "PushBlobChunkedResume(offset %d) failed: %v", n, err)
+	}
+	if _, err := q.Write(x); err != nil {
+		env.Failf("C04/Write/unexpected-failure", "Write at the right offset %d failed: %v", n, err)
+	}
+	if err := q.Close(); err != nil {
+		env.Failf("C04/Close/unexpected-failure", "Close failed although no fault was injected: %v", err)
+	}
+	if got := held(); got != ahead {
+		env.Failf("C04/Close/not-flushed", "after a successful Close the registry holds %d bytes, the caller wrote %d", got, ahead)
+	}
+	// ... and the refused writer is tidied up, or used again. Whatever these calls
+	// answer, the data that was refused is not what the caller has written since.
+	switch c.Int("afterwards", 3) {
+	case 0:
+		p.Close()
+	case 1:
+		p.Cancel()
+		p.Close()
+	case 2:
+		p.Close()
+		p.Close()
+	}
+	env.Sample("%s: upload of %d bytes; %d bytes sent for offset %d refused at %s; another writer adds %d bytes; the refused writer is closed", kind, n, len(y), ahead, how, len(x))
+	if got := held(); got != ahead {
+		env.Failf("C04/stale/altered-later", "%d bytes for offset %d were refused (%s: 416) when the registry held %d; after another writer had taken it to %d, closing the refused writer made it %d bytes: the refused data got in after all", len(y), ahead, how, n, ahead, got)
+	}
+	// the upload completes as base+x
+	want := append(append([]byte{}, base...), x...)
+	w3, err := r.PushBlobChunkedResume(ctx, repo, id, ahead, 0)
+	if err != nil {
+		env.Failf("C04/resume/unexpected-failure", "PushBlobChunkedResume after the refused write failed: %v", err)
+	}
+	if _, err := w3.Commit(reg.Sha256(want)); err != nil {
+		env.Failf("C04/Commit/unexpected-failure", "Commit of the %d bytes the registry accepted failed: %v", len(want), err)
+	}
 }
